@@ -500,3 +500,7 @@ Definition ref_put_row (r : Z) (after : bool) : Z := if after then r + 1 else r.
 Definition plain_key (k : chr) : bool := negb (existsb (N.eqb (b0 k)) [8; 127; 21; 23; 20; 4; 22; 18; 16; 10]%N).
 (* where i / a start inserting in the cursor line *)
 Definition ref_ins_off (body : list chr) (o : Z) (append : bool) : Z := if append && negb (is_nil body) then o + 1 else o.
+(* the invariant of the interpreter's states: valid UTF-8 (buffer and registers), every line well formed (one
+   terminator, at the end), the cursor on an existing character (C07's cursor_ok) *)
+Definition est_inv (e : est) : Prop :=
+  est_valid e /\ buf_wf (s_buf e) /\ cursor_ok (s_buf e) (v_row (s_vs e)) (v_off (s_vs e)).
